@@ -370,6 +370,14 @@ fn excluded_by_known_finding(p: Prop, w: &mut World, o: &Op, known_open: &dyn Fn
     if known_open("structure:element-type-differs-from-specification") && crate::c07::copy_keeps_foreign_type(w, o) {
         return Some("KF-C07-2");
     }
+    // KF-C04-3: copy of a SHORT-NAME element (gives its new parent an item name behind the back of the path index)
+    if matches!(o.code, op::COPY | op::COPY_AT | op::COPY_X) && known_open("copy-of-short-name-element:parent-not-registered-in-path-index") {
+        if let Some((_pid, sid)) = w.peek_copy_move(o) {
+            if w.elems[sid].element_name() == autosar_data::ElementName::ShortName {
+                return Some("KF-C04-3");
+            }
+        }
+    }
     // KF-C10-1: remove_from_file on the ROOT element
     if o.code == op::REMOVE_FROM_FILE && known_open("root-element-removed-from-a-file") {
         if let Some((eid, _fi)) = w.peek_elem_file(o) {
@@ -486,6 +494,47 @@ fn demonstrations(ctx: &Ctx, p: Prop) {
         })();
         if let Ok(true) = r {
             ctx.report(Failure::new("container-copy-or-move:child-path-collides-in-destination", "after copying the <AR-PACKAGES> of /pkg1 (holding package b) into /a, which already has the COMPU-METHOD /a/b, two elements have the path /a/b", json!({"kind": "demonstration", "finding": "KF-C04-1"})));
+        }
+    }
+    if p == Prop::C04 {
+        // KF-C04-3: a SHORT-NAME element copied into an element of a named type that has none (possible after a lenient load)
+        st.eval();
+        let m = AutosarModel::new();
+        let doc = format!("<?xml version=\"1.0\" encoding=\"utf-8\"?>\n{}<AR-PACKAGES><AR-PACKAGE><SHORT-NAME>p</SHORT-NAME><ELEMENTS><SYSTEM-SIGNAL></SYSTEM-SIGNAL><UNIT><SHORT-NAME>u</SHORT-NAME></UNIT></ELEMENTS></AR-PACKAGE></AR-PACKAGES></AUTOSAR>", crate::inputs::autosar_open(AutosarVersion::Autosar_00050));
+        let r = (|| -> Option<bool> {
+            m.load_buffer(doc.as_bytes(), "lenient.arxml", false).ok()?;
+            let sig = m.root_element().elements_dfs().map(|(_, e)| e).find(|e| e.element_name() == ElementName::SystemSignal)?;
+            let name_elem = m.get_element_by_path("/p/u")?.get_sub_element(ElementName::ShortName)?;
+            sig.create_copied_sub_element(&name_elem).ok()?;
+            Some(sig.item_name().as_deref() == Some("u") && sig.path().ok().as_deref() == Some("/p/u") && m.identifiable_elements().filter(|(p, _)| p == "/p/u").count() == 1 && m.get_element_by_path("/p/u").is_some_and(|e| e != sig))
+        })();
+        if let Some(true) = r {
+            ctx.report(Failure::new("copy-of-short-name-element:parent-not-registered-in-path-index", "a SYSTEM-SIGNAL without SHORT-NAME (lenient load) gets the SHORT-NAME 'u' by create_copied_sub_element(<SHORT-NAME> of /p/u): it now reports the path /p/u, which the index still maps to the UNIT only - no uniqueness check, no index entry", json!({"kind": "demonstration", "finding": "KF-C04-3"})));
+        }
+    }
+    if p == Prop::C11 {
+        // KF-C11-4: a move that needs a uniqueness suffix on a 127-character name fails AFTER it has changed the model
+        st.eval();
+        let long = format!("L{}", "2345678901".repeat(13))[..127].to_string();
+        let mut w = World::fixture(0);
+        let m = w.models[0].clone();
+        let r = (|| -> Option<String> {
+            m.get_element_by_path("/pkg1/x9")?.set_item_name(&long).ok()?;
+            let unit = m.get_element_by_path("/a/x10")?;
+            unit.set_item_name(&long).ok()?;
+            let dest = m.get_element_by_path("/pkg1")?.get_sub_element(ElementName::Elements)?;
+            w.rescan();
+            let before = snapshot(&mut w, 0, false);
+            let res = dest.move_element_here(&unit);
+            w.rescan();
+            let after = snapshot(&mut w, 0, false);
+            match (res, before.diff(&after)) {
+                (Err(e), Some(d)) => Some(format!("{}: {}", crate::hist::err_variant(&e), d.replace(&long, "<127 characters>"))),
+                _ => None,
+            }
+        })();
+        if let Some(d) = r {
+            ctx.report(Failure::new("failed-op-changed-state:move:unique-name-longer-than-128", format!("move_element_here of an element with a 127-character name into a parent that already has that name returns an error but the model changed: {d}"), json!({"kind": "demonstration", "finding": "KF-C11-4"})));
         }
     }
     if p == Prop::C10 {
